@@ -907,6 +907,30 @@ def prop_check(c, out):
 
 
 # ---------------------------------------------------------------- known classes (decided from the request alone)
+def _pfx_hexlike(kws):
+    """an explicit prefix (pfx= bytes / pfxh= hexadecimal text) whose BYTES read as hexadecimal text; for the one- and two-byte
+    values that occur: ASCII white space only (09 0a 0b 0c 0d 20), which bytes.fromhex reads as the empty string"""
+    kw = kw_of(kws)
+    v = kw.get('pfx', kw.get('pfxh'))
+    return bool(v) and hexlike(bytes.fromhex(v))
+
+
+def _pfx_unhexlified(t):
+    """the same addrx request with the prefix replaced by what to_bytes() makes of it"""
+    kw = kw_of(t[-1])
+    v = kw.pop('pfx', None) or kw.pop('pfxh', None)
+    kw['pfx'] = bytes.fromhex(bytes.fromhex(v).decode()).hex()
+    return t[:-1] + [','.join('%s=%s' % kv for kv in kw.items())]
+
+
+def _prefix_ascii_hex(c, io):
+    t = c.req.split(' ')
+    if _cls(c) != 'prefix_ascii_hex':
+        return False
+    kind, val = expect_address(_pfx_unhexlified(t), SN.REFERENCE)
+    return kind == 'exp' and io == val[1]
+
+
 def _cls(c):
     t = c.req.split(' ')
     if t[0] in ('import', 'addr', 'keyhash'):
@@ -930,6 +954,8 @@ def _cls(c):
         kw = kw_of(t[4])
         if kw.get('st') == 'p2tr' and kw.get('wt') == 'taproot' and kw.get('witver', '0') == '0' and kw.get('hd') == '1':
             return 'p2tr_explicit_taproot_witver0'
+    if t[0] == 'addrx' and t[1] in ('A', 'K', 'H') and _pfx_hexlike(t[-1]):
+        return 'prefix_ascii_hex'
     if t[0] == 'route' and t[1] == 'HDKeyD' and t[2] == 'bip38':
         return 'hdkey_bip38_default_witness_refused'
     if t[0] == 'sess':
@@ -964,7 +990,8 @@ def _documented_deviation(c, io):
     return kr == 'exp' and kf == 'exp' and vr[1] != vf[1] and io == vf[1]
 
 
-PROPOSED_CLASSES = ('p2tr_explicit_taproot_witver0', 'address_prefix_arg_reuses_cached_object', 'hdkey_bip38_default_witness_refused')
+PROPOSED_CLASSES = ('p2tr_explicit_taproot_witver0', 'address_prefix_arg_reuses_cached_object', 'hdkey_bip38_default_witness_refused',
+                    'prefix_ascii_hex')
 KNOWN_CLASSES = {
     'hex128_wide_secret': lambda c, io, mo: _cls(c) == 'hex128_wide_secret',
     'nonstrict_tolerated': lambda c, io, mo: _cls(c) == 'nonstrict_tolerated',
@@ -973,6 +1000,7 @@ KNOWN_CLASSES = {
     'p2tr_explicit_taproot_witver0': lambda c, io, mo: _cls(c) == 'p2tr_explicit_taproot_witver0',
     'address_prefix_arg_reuses_cached_object': lambda c, io, mo: _cls(c) == 'address_prefix_arg_reuses_cached_object',
     'hdkey_bip38_default_witness_refused': lambda c, io, mo: _cls(c) == 'hdkey_bip38_default_witness_refused' and io == 'ERR',
+    'prefix_ascii_hex': lambda c, io, mo: _prefix_ascii_hex(c, io),
     'regtest_mainnet_version_bytes': lambda c, io, mo: _cls(c) is None and _documented_deviation(c, io),
 }
 
@@ -1362,6 +1390,12 @@ def gen_cases(rng, tier):
         cs.append(Case('history_prefix', 'sess Key %d 1 %s N a:st=p2pkh,enc=base58 a:st=p2pkh,enc=base58,comp=0,pfx=%s' % (d, net, pf)))
         cs.append(Case('history_prefix', 'sess HDKey %d 1 %s legacy a:st=p2pkh,enc=base58 n:dogecoin a:st=p2pkh,enc=base58,comp=0,pfx=%s h' % (d, net, pf)))
         cs.append(Case('history_prefix', 'sess HDKey %d 1 %s segwit a:- a:st=p2wsh,enc=bech32,pfxs=%s' % (d, net, hrp)))
+    # an explicit prefix made of ASCII white space (reads as hexadecimal text in to_bytes(): the version byte is dropped): proposed
+    # known class prefix_ascii_hex; the random prefix byte of the argument-combination streams above draws it now and then
+    cs.append(Case('argcombo_prefix_ws', 'addrx A signet c7ec8eab8e9fc683cde0dae6aec0ceea88a08fcd st=p2pkh,pfx=09,comp=0,hd=1'))
+    cs.append(Case('argcombo_prefix_ws', 'addrx A bitcoin %s st=p2sh,enc=base58,pfxh=20' % ser_c(ec_mul(5)).hex()))
+    cs.append(Case('argcombo_prefix_ws', 'addrx K bitcoin 5 1 N st=p2pkh,enc=base58,pfx=0a'))
+    cs.append(Case('argcombo_prefix_ws', 'addrx H litecoin 5 1 legacy st=p2pkh,enc=base58,pfxh=0d'))
     # a class PROPOSED as known (fixes/C04-known-*.json) is exercised only once it is recorded (known_findings.json or
     # VERIF_EXTRA_KNOWN); until then its requests are left out so that the unchanged tree stays green
     recorded = {e.get('class') or e.get('id') for e in core.load_known(PROP) if e.get('status') == 'known'}
